@@ -145,6 +145,11 @@ Check that the argument is true.
 #define ASL_DEPRECATED(f, m) f
 #endif
 
+#ifdef ASL_VERIF
+// verification builds only: lets a test harness override internal tuning constants (chunk and block sizes)
+extern "C" int asl_verif_knob(const char* name, int defaultValue);
+#endif
+
 namespace asl {
 
 /**
